@@ -125,7 +125,8 @@ CHECKS.update({
               "sibling-implementation cross-check over selection sites"),
     "C08": _c("Vectors filled in DashMap/hash iteration order must be sorted before they are returned (must-pass-through check); "
               "first-match exits from hash iterations are in a reviewed table; order-sensitive selections over the per-name vector "
-              "must pin one file. Four unsorted outputs were repaired (fix: commits); the unpinned selections are recorded known "
+              "must pin one file; no order-dependent pick from the iteration of a hash container. Four unsorted outputs and one pick in "
+              "hash order (the .pth lookup of editable installs) were repaired (fix: commits); the unpinned selections are recorded known "
               "findings with replays. Ties and other nondeterminism channels are not decided.",
               "DESIGN.md section 4 R4, section 5 C08",
               "Trusted: iterator-type based source detection, sort must-pass-through on the CFG. Undecided: sort-key totality.",
